@@ -11,7 +11,7 @@ CHECK_FN = 'check_cases "C01"'
 MISMATCH_IS_VIOLATION = False
 RULE = ec.ENG_RULE + "non-trivial = the main answer is non-empty; distinct = distinct (database, query, options)"
 TRUSTED = ["oracles fed to the model from the real code for each case: bm25IDF values (math.Log), the NLP analysis of the query and per-document NLP "
-           "multipliers, the TF-IDF ranking, raw sahilm/fuzzy scores", "correspondence harness", "PrimFloat = Go float64 on amd64 (no FMA fusion)"]
+           "multipliers, the TF-IDF tokenizer output and math.Log table (the ranking itself is computed by Model/Tfidf.v and compared), raw sahilm/fuzzy scores", "correspondence harness", "PrimFloat = Go float64 on amd64 (no FMA fusion)"]
 ASSUMPTIONS = ["platform tags are ASCII (EqualFold modelled by ASCII folding)"]
 coq_case = ec.cecase
 preamble = ec.eng_preamble
@@ -45,5 +45,5 @@ def finding_key(c, r):
     return None
 
 LEVEL_TEXT = "Theorems (Props/C01.v): the recovery search (Model/Recovery.v, three substring strategies) returns no entry twice, only entries of the database, one finite non-negative score; and for every database, query, option record, idf function, fuzzy-matcher outcome and NLP analysis on Model/Engine.v: the answer of SearchUniversal has no entry twice, at most the limit in force (default 10), only entries of the database that pass the filters; the index/NLP path is ordered by non-increasing score (binary64 comparison), the typo fallback by raw match quality. The model is compared bit for bit with the real engine on every generated case (7 runs per case), and the property's predicate (limit, membership, duplicates, finite non-negative scores, order) is evaluated in Coq on the real answers of SearchUniversal, the cached layer, the legacy pipeline search and Search."
-LEVEL_NOTE = "Trusted: Coq kernel + vm_compute; FloatAxioms (ltb_spec etc., standard library) for the ordering theorem; oracles from the real code per case (math.Log idf, NLP multipliers, TF-IDF ranking, raw fuzzy scores). 'finite, non-negative' is checked per case on model and code, not proved (no float range laws); the legacy pipeline search is covered by the predicate only; Unicode lower-casing of the query is an oracle of the recovery model."
+LEVEL_NOTE = "Trusted: Coq kernel + vm_compute; FloatAxioms (ltb_spec etc., standard library) for the ordering theorem; oracles from the real code per case (math.Log tables, NLP analysis and multipliers, TF-IDF tokenizer output, raw fuzzy scores). 'finite, non-negative' is checked per case on model and code, not proved (no float range laws); the legacy pipeline search is covered by the predicate only; Unicode lower-casing of the query is an oracle of the recovery model."
 TECHNIQUE = "Coq proof over the engine model + differential correspondence (vm_compute, bit-exact scores)"
